@@ -2,8 +2,9 @@
 
 Case kinds of harness command `core` (harness_core/src/core.rs):
   exec <program> <pdl> <input>      -> see core.rs for the result layout
-Model entry points: coq/Core/Run.v (run_limits), coq/Core/Run2.v (run_exec2, run_eval2, run_jet_names2: the
-same functions over the extended jet dispatcher of coq/Jets/JetSpecAll.v).
+Model entry points: coq/Core/Run.v (run_limits), coq/Jets/JetSpecAll3.v (run_exec3, run_eval3, run_exec_v3, run_jet_names3: the
+functions of coq/Core/Run2.v / RunV.v over the jet dispatcher extended with the secp256k1 point and signature jets of
+coq/Jets/JetSpecSecp.v / JetSpecSecpSig.v).
 """
 import os
 
@@ -17,7 +18,7 @@ except ImportError:  # pragma: no cover
     core_jets = None
 
 CRATE = None  # merged into the main harness crate
-IMPORTS = ["Lib.Outcome", "Ty.Ty", "Core.Prog", "Core.Term", "Core.Bounds", "Core.Machine", "Core.Run", "Core.Run2", "Core.RunV"]
+IMPORTS = ["Lib.Outcome", "Ty.Ty", "Core.Prog", "Core.Term", "Core.Bounds", "Core.Machine", "Core.Run", "Core.Run2", "Core.RunV", "Jets.JetSpecAll3"]
 # Print Assumptions of the theorems about the extended jet dispatcher lists the Uint63 primitives of Merkle/Sha256.v;
 # coqchk (thorough tier) lists every primitive and axiom of Coq.Numbers.Cyclic.Int63 in the closure of the library,
 # whether used or not: the same list as C09 (tools/props/c09.py)
@@ -28,7 +29,7 @@ except Exception:  # pragma: no cover
     UINT63_PRIMS = ["int", "add", "sub", "land", "lor", "lxor", "lsl", "lsr", "eqb",
                     "PrimInt63.int", "PrimInt63.add", "PrimInt63.sub", "PrimInt63.land",
                     "PrimInt63.lor", "PrimInt63.lxor", "PrimInt63.lsl", "PrimInt63.lsr", "PrimInt63.eqb"]
-EXTRA_TARGETS = ["Core/Run.vo", "Core/Run2.vo", "Core/RunV.vo"]
+EXTRA_TARGETS = ["Core/Run.vo", "Core/Run2.vo", "Core/RunV.vo", "Jets/JetSpecAll3.vo"]
 MAX_CELLS = 2 * 1024 * 1024 * 1024 - 1
 MAX_FRAMES = 1024 * 1024
 USIZE_MAX = 2**64 - 1
@@ -97,12 +98,12 @@ _spec_names = {}
 
 
 def specified_jets(workdir):
-    """ids and names of the jets specified in coq/Jets/JetSpec.v and JetSpecSha.v (evaluated in Coq)"""
+    """ids and names of the jets specified in coq/Jets/JetSpec.v, JetSpecSha.v, JetSpecSecp.v and JetSpecSecpSig.v (evaluated in Coq)"""
     if "v" not in _spec_names:
-        vals, logs = vplib.coq_eval(IMPORTS, ["List.concat (map (fun l => N.of_nat (List.length l) :: l) run_jet_names2)"],
+        vals, logs = vplib.coq_eval(IMPORTS, ["List.concat (map (fun l => N.of_nat (List.length l) :: l) run_jet_names3)"],
                                     workdir=workdir, tag="jetnames")
         if vals[0] is None:
-            raise vplib.Infra("cannot evaluate run_jet_names2:\n" + logs[0][-2000:])
+            raise vplib.Infra("cannot evaluate run_jet_names3:\n" + logs[0][-2000:])
         flat = vals[0]
         out = {}
         pos = 0
@@ -396,7 +397,7 @@ def make_execv_case(cid, prog, arrows, cmrs, inp, padty, padbits, jet_ids, costs
         line = "0 %s %s:%s:%s:%s" % (pg.prog_pdl(prog), ty_pdl(padty), pg.bstr(padbits), ty_pdl(inp[0]), pg.bstr(inp[1]))
         raw = value_layout(list(padbits) + list(inp[1]))
         coq_in = "(Some (%s, %d, %s))" % (vplib.coq_list(raw), pg.width(padty), ty_coq(inp[0]))
-    expr = "run_exec_v %d %s %s %s %s" % (prof, coq_typed_prog(prog, arrows, jet_ids), coq_cmrs(cmrs),
+    expr = "run_exec_v3 %d %s %s %s %s" % (prof, coq_typed_prog(prog, arrows, jet_ids), coq_cmrs(cmrs),
                                           coq_costs(prog, jet_ids, costs), coq_in)
     m = {"prog": prog, "arrows": arrows, "cmrs": cmrs, "inp": inp, "padty": padty}
     m.update(meta or {})
@@ -451,7 +452,7 @@ def make_exec_case(cid, prog, arrows, cmrs, inp, jet_ids, costs, prof=0, meta=No
     line = "0 %s %s" % (pg.prog_pdl(prog), "-" if inp is None else "%s:%s" % (ty_pdl(inp[0]), pg.bstr(inp[1])))
     expr = None
     if model:
-        expr = "run_exec2 %d %s %s %s %s" % (prof, coq_typed_prog(prog, arrows, jet_ids), coq_cmrs(cmrs),
+        expr = "run_exec3 %d %s %s %s %s" % (prof, coq_typed_prog(prog, arrows, jet_ids), coq_cmrs(cmrs),
                                             coq_costs(prog, jet_ids, costs), coq_input(inp))
     m = {"prog": prog, "arrows": arrows, "cmrs": cmrs, "inp": inp}
     m.update(meta or {})
@@ -604,6 +605,7 @@ def template_programs(rng, count_disc=6):
     out += disc_width_programs(rng, const_of)
     out += aligned_copy_programs(rng, (1, 2, 4, 9) if count_disc <= 6 else (1, 2, 3, 4, 5, 8, 9, 16, 32, 33))
     out += guard_after_write_programs(rng, count_disc <= 6)
+    out += guard_after_copy_programs(rng, count_disc <= 6)
     return [pg.compact_prog(n) for n in out]
 
 
@@ -665,7 +667,7 @@ def aligned_copy_programs(rng, ks):
     return out
 
 
-def guard_after_write_programs(rng, quick):
+def guard_after_write_programs(rng, quick, with_expect=False):
     """comp (const bits : B) (pair X (pair W G)) with no input: the output frame starts at cell 0 and the comp's intermediate
     frame (holding B = 2 * (2 * ... * 1), 10 bits) starts in the cell right behind it.  X (0..9 bits of word constants)
     puts the write cursor at every alignment, W is a word constant or a typed witness of 8 / 16 / 32 bits and the LAST
@@ -743,7 +745,72 @@ def guard_after_write_programs(rng, quick):
                     nodes.append(("pair", wc, g))
                     nodes.append(("pair", xc, len(nodes) - 1))
                     nodes.append(("comp", const, len(nodes) - 1))
-                    out.append(nodes)
+                    out.append((nodes, wrong) if with_expect else nodes)
+    return out
+
+
+def guard_after_copy_programs(rng, quick, with_expect=False):
+    """comp (const (g, d) : G * D) (pair X (pair (drop iden) (take A))): like guard_after_write_programs, but the last data
+    written into the output frame is a COPY (iden) of the n-bit word data d out of the comp's intermediate frame, which
+    starts in the cell right behind the output frame and begins with the k guard bits g that A : G -> 1 asserts
+    afterwards.  X has xw bits.  The write cursor of the copy is at cell xw, its read cursor at cell xw + n + k: the
+    combinations where both are multiples of 8 and n is not (the fast path of a byte-wise copy) are all generated,
+    the others sampled.  One asserted bit is wrong in every fourth program, where the run must fail."""
+    out = []
+    hid = "%064x" % 0x5eed
+    combos = []
+    for xw in range(0, 17):
+        for n in range(1, 20):
+            for k in range(1, 17):
+                aligned = xw % 8 == 0 and (xw + n + k) % 8 == 0 and n % 8 != 0
+                if aligned and (not quick or (k <= 8 and n <= 12)):
+                    combos.append((xw, n, k))
+                elif rng.chance(1, 200 if quick else 40):
+                    combos.append((xw, n, k))
+    for idx, (xw, n, k) in enumerate(combos):
+        for pat in range(2):
+            bits = ([1] * k if pat == 0 else rng.bits(k))
+            wrong = (idx + pat) % 4 == 3
+            nodes = []
+            nodes.append(("unit",))
+            t = len(nodes) - 1
+            for b in reversed(bits):
+                nodes.append(("word", 0, [b]))
+                nodes.append(("pair", len(nodes) - 1, t))
+                t = len(nodes) - 1
+            gconst = t                                                   # 1 -> G = 2 * (2 * ... * 1)
+            dconst = words_of_width(nodes, n, rng)                       # 1 -> D, n bits
+            nodes.append(("pair", gconst, dconst))
+            const = len(nodes) - 1
+            nodes.append(("unit",))
+            g = len(nodes) - 1
+            exp = list(bits)
+            if wrong:
+                exp[rng.below(k)] ^= 1
+            for b in reversed(exp):
+                nodes.append(("drop", g))
+                d = len(nodes) - 1
+                nodes.append(("unit",))
+                u = len(nodes) - 1
+                nodes.append(("hid", hid))
+                h = len(nodes) - 1
+                nodes.append(("case", h, u) if b else ("case", u, h))
+                nodes.append(("pair", len(nodes) - 1, d))
+                g = len(nodes) - 1
+            nodes.append(("take", g))
+            guard = len(nodes) - 1                                       # G * D -> 1 * ...
+            nodes.append(("unit",))
+            u0 = len(nodes) - 1
+            x = words_of_width(nodes, xw, rng)
+            nodes.append(("comp", u0, x))
+            xc = len(nodes) - 1
+            nodes.append(("iden",))
+            nodes.append(("drop", len(nodes) - 1))
+            cp = len(nodes) - 1                                          # G * D -> D : the copy
+            nodes.append(("pair", cp, guard))
+            nodes.append(("pair", xc, len(nodes) - 1))
+            nodes.append(("comp", const, len(nodes) - 1))
+            out.append((nodes, wrong) if with_expect else nodes)
     return out
 
 
